@@ -64,6 +64,28 @@ def unjson(o):
     return o
 
 
+class CpuBudgetExceeded(BaseException):
+    """Raised inside a guarded case when it burned more CPU time than any legitimate case can (a hang)."""
+
+
+import contextlib
+import signal
+
+
+@contextlib.contextmanager
+def cpu_guard(seconds):
+    """Bound the CPU time (not wall-clock: immune to machine load) of one case."""
+    def _handler(signum, frame):
+        raise CpuBudgetExceeded(f"more than {seconds}s of CPU time")
+    old = signal.signal(signal.SIGVTALRM, _handler)
+    signal.setitimer(signal.ITIMER_VIRTUAL, seconds)
+    try:
+        yield
+    finally:
+        signal.setitimer(signal.ITIMER_VIRTUAL, 0)
+        signal.signal(signal.SIGVTALRM, old)
+
+
 class Ctx:
     """What a property module sees.  All observation goes through here."""
 
@@ -163,6 +185,12 @@ def load_findings():
 
 
 def run_child(args):
+    try:
+        import resource
+        limit = int(os.environ.get("HV_MEM_LIMIT_GB", "6")) << 30
+        resource.setrlimit(resource.RLIMIT_AS, (limit, limit))
+    except Exception:
+        pass
     mod = load_module(args.prop)
     budget = getattr(mod, "BUDGET_S", {}).get(args.tier)
     deadline = time.time() + budget if budget else None
